@@ -56,6 +56,7 @@ fn stateless_stage(r: &mut Rng) -> (String, Option<Vec<String>>) {
 }
 
 pub fn check(ctx: &mut Ctx) {
+    check_long_prefix(ctx);
     let n = ctx.budget(1600, 60000);
     for _ in 0..n {
         let mut r = ctx.rng.fork();
@@ -191,6 +192,68 @@ pub fn check(ctx: &mut Ctx) {
             }
         }
 
+    }
+}
+
+/// concatenation with a long first part: the second part then starts at an arbitrary offset of
+/// the byte stream (near the reader's 8 KiB block boundaries in particular), inside or between
+/// multi-byte characters — a line's output must not depend on where in the stream it sits
+fn check_long_prefix(ctx: &mut Ctx) {
+    let n = ctx.budget(160, 4000);
+    for _ in 0..n {
+        let mut r = ctx.rng.fork();
+        let block = *r.pick(&[4096usize, 8192, 8192, 8192, 16384, 65536]);
+        let m = 1 + r.below(3);
+        let off = r.below(200);
+        let target = block * m - off.min(block * m - 64);
+        // A: ASCII JSON lines, the last one padded so that A is exactly `target` bytes long
+        let mut a: Vec<u8> = vec![];
+        let mut id = 0;
+        loop {
+            let line = format!("{{\"id\":{},\"k\":\"{}\"}}\n", id, r.pick(&["a", "b", "c"]));
+            if a.len() + line.len() + 40 > target {
+                break;
+            }
+            a.extend(line.into_bytes());
+            id += 1;
+        }
+        let head = format!("{{\"id\":{},\"pad\":\"", id);
+        let padlen = target - a.len() - head.len() - 3;
+        a.extend(format!("{}{}\"}}\n", head, "x".repeat(padlen)).into_bytes());
+        debug_assert_eq!(a.len(), target);
+        // B: lines made of multi-byte characters
+        let word: String = (0..(20 + r.below(60))).map(|_| *r.pick(&['日', '本', 'é', 'ü', '😀', 'ж', 'x'])).collect();
+        let nb = 1 + r.below(3);
+        let mut b: Vec<u8> = vec![];
+        for i in 0..nb {
+            b.extend(format!("{{\"id\":{},\"s\":\"{}\",\"k\":\"{}\"}}\n", 100000 + i, word, word.chars().rev().collect::<String>()).into_bytes());
+        }
+        let q = *r.pick(&["* | json", "* | json | length(s) as len", "* | json | fields only id, s", "* | json | where isNull(pad) | concat(s, k) as sk", "* | parse \"\\\"s\\\":\\\"*\\\"\" as sv"]);
+        let mode = if r.chance(30) { "logfmt" } else { "json" };
+        let mut ab = a.clone();
+        ab.extend(&b);
+        let key = format!("long-prefix:{}:{}:{}:{}", q, mode, target, word);
+        let info = serde_json::json!({"query": q, "mode": mode, "A_bytes": a.len(), "B": String::from_utf8_lossy(&b), "note": "A = ASCII JSON lines, last one padded to the stated length (regenerate from the seed)"});
+        let (ra, rb, rab) = (imp::run(q, &a, mode, 20), imp::run(q, &b, mode, 20), imp::run(q, &ab, mode, 20));
+        if !rab.compiled || rab.panicked.is_some() || ra.panicked.is_some() || rb.panicked.is_some() || rab.hung {
+            ctx.case("long-prefix", "", "skip", serde_json::json!({"why": "did not run (judged by C11)", "case": info}));
+            continue;
+        }
+        let mut cat = ra.stdout.clone();
+        cat.extend(&rb.stdout);
+        if cat != rab.stdout || ra.error_lines + rb.error_lines != rab.error_lines {
+            let tail = |v: &[u8]| String::from_utf8_lossy(&v[v.len().saturating_sub(600)..]).to_string();
+            ctx.case("long-prefix", &key, "viol", serde_json::json!({"class": "", "what": "run(A++B) differs from run(A)++run(B): a line's output depends on its offset in the byte stream",
+                "got_AB_tail": tail(&rab.stdout), "got_A_then_B_tail": tail(&cat), "case": info}));
+            continue;
+        }
+        ctx.case("long-prefix", &key, "pass", info.clone());
+        let c = run_both(ctx, q, &ab);
+        match compare(&c, true) {
+            F::Agree => ctx.case("model", &key, "pass", info),
+            F::Skip(w) => ctx.case("model", "", "skip", serde_json::json!({"why": w.split(':').next().unwrap_or("").to_string()})),
+            F::Disagree(d) => ctx.case("model", &key, "fdis", serde_json::json!({"what": d.chars().take(800).collect::<String>(), "case": info})),
+        }
     }
 }
 
